@@ -402,8 +402,16 @@ func checkC14(c KeyCase) (bool, *Violation) {
 	rx := NewReceiver()
 	for i := range w.Steps {
 		ws := &w.Steps[i]
+		// the swallowed press must leave nothing behind: octave, semitone, channel and mapping follow the reference
+		// model (in which that press does not exist) for the whole history, also after the completion
+		if st := ws.Res.State; int(st.Octave) != ws.Post.Octave || int(st.Semitone) != ws.Post.Semitone || int(st.Channel) != ws.Post.Channel ||
+			st.Mapping != c.D.Mappings[ws.Post.Mapping].Name {
+			return true, violation("C14", "state-after-swallowed-press", fmt.Sprint(fired),
+				"%s: device reports octave=%d semitone=%d channel=%d mapping=%q, expected %s (exit sequence %v, completed earlier: %v)",
+				describeStep(i, ws), st.Octave, st.Semitone, int(st.Channel)+1, st.Mapping, ws.Post, c.D.Exit, fired)
+		}
 		if fired {
-			// nothing is asserted about presses after the first completion; only feed the receiver
+			// nothing else is asserted about presses after the first completion; only feed the receiver
 			for _, m := range ws.Res.Out {
 				rx.Feed(m)
 			}
